@@ -151,6 +151,58 @@ def affine_upper(e, n_name, env_exprs):
     return None
 
 
+def _resolve_local(f, e, depth=0):
+    """`e` with locals replaced by their definition when every definition of the local in the function
+    has the same text (else the name is kept)."""
+    import copy as _copy
+
+    if depth > 4:
+        return e
+    defs = {}
+    for n in ast.walk(f.node):
+        if isinstance(n, ast.Assign) and len(n.targets) == 1 and isinstance(n.targets[0], ast.Name):
+            defs.setdefault(n.targets[0].id, []).append(n.value)
+    params = set(f.params)
+
+    class Sub(ast.NodeTransformer):
+        def visit_Name(self, n):  # noqa: N802
+            if isinstance(n.ctx, ast.Load) and n.id in defs and n.id not in params and len({norm(v) for v in defs[n.id]}) == 1:
+                return _resolve_local(f, _copy.deepcopy(defs[n.id][0]), depth + 1)
+            return n
+
+    return Sub().visit(_copy.deepcopy(e))
+
+
+def _check_record_flags(r, prop, k, f, c, kw):
+    """The sampler sizes the output arrays from the `trace_warm_up` option: a warm-up stage must record
+    statistics exactly when that option is set, and be traced with the given functions exactly then."""
+    tw = next((p for p in f.params if p == "trace_warm_up"), None)
+    tf = f.params[4] if len(f.params) > 4 else "trace_funcs"
+    if tw is None:
+        raise AnalysisError(f"{k.name}.stages: trace_warm_up parameter not found")
+    rs = _resolve_local(f, kw.get("record_stats")) if kw.get("record_stats") is not None else None
+    if rs is None or norm(rs) != tw:
+        r.violate(prop, f"{k.name}.stages:warm-up:{norm(kw.get('n_iter'))}:record_stats={norm(rs) if rs is not None else None}", f"the warm-up stage records statistics under `{norm(rs) if rs is not None else None}` instead of `{tw}`: sample_chains sizes the statistics arrays from {tw} (n_warm_up + n_main rows when it is set), so with a different condition rows stay at their fill values / main-stage rows land at the wrong offset", node=c, file=f.file)
+    tr = _resolve_local(f, kw.get("trace_funcs")) if kw.get("trace_funcs") is not None else None
+    ok = tr is not None and isinstance(tr, ast.IfExp) and ((norm(tr.test) == tw and norm(tr.orelse) == "None") or (norm(tr.test) == f"not {tw}" and norm(tr.body) == "None"))
+    if ok:
+        val = tr.body if norm(tr.test) == tw else tr.orelse
+        val = _resolve_local(f, val)
+        ok = norm(val) in (tf, f"tuple({tf}) if {tf} is not None else {tf}")
+    if not ok:
+        r.violate(prop, f"{k.name}.stages:warm-up:{norm(kw.get('n_iter'))}:trace_funcs={norm(tr)[:50] if tr is not None else None}", f"the warm-up stage is traced with `{norm(tr)[:60] if tr is not None else None}`, not `{tf} if {tw} else None`", node=c, file=f.file)
+
+
+def rule_record_flags(rep, program: Program, prop=PROP, rule="R4"):
+    r = rep.rule(rule, "every warm-up stage records statistics iff trace_warm_up and is traced with the given functions iff trace_warm_up (the sampler sizes the arrays from that option)", floor=4)
+    for k in program.subclasses("Stager", concrete_only=True):
+        f = k.resolve("stages")
+        for c, kw in chain_stage_calls(f)[:-1]:
+            r.inst({"stager": k.name, "stage": norm(kw.get("n_iter")), "record_stats": norm(_resolve_local(f, kw.get("record_stats"))) if kw.get("record_stats") is not None else None})
+            _check_record_flags(r, prop, k, f, c, kw)
+    return r
+
+
 def rule_r1(rep, program: Program):
     r = rep.rule("R1", "stage partition: warm-up lengths sum to n_warm_up_iter, non-negative remainder, main stage last/non-adaptive/recording, fast stages get only fast adapters", floor=10)
     stagers = program.subclasses("Stager", concrete_only=True)
@@ -205,8 +257,7 @@ def rule_r1(rep, program: Program):
             if ad != want:
                 what = "a fast (non-window) warm-up stage is given the slow adapters as well" if want == "fast_adapters" else "a slow adaptation window / warm-up stage is not given all adapters"
                 r.violate(PROP, f"{k.name}.stages:warm-up:{norm(kw.get('n_iter'))}:adapters={ad}", what, node=c, file=f.file)
-            if norm(kw.get("record_stats")) not in ("trace_warm_up", "record_stats"):
-                r.violate(PROP, f"{k.name}.stages:warm-up:{norm(kw.get('n_iter'))}:record_stats={norm(kw.get('record_stats'))}", "warm-up statistics are recorded regardless of trace_warm_up (array lengths assume they are not)", node=c, file=f.file)
+            _check_record_flags(r, PROP, k, f, c, kw)
             if in_loop:
                 lp = in_loop[-1]
                 # for i, n_iter in enumerate(slow_windows)
@@ -645,6 +696,25 @@ def rule_r2(rep, program: Program):
                 r.inst({"_sample_chain adapter call": norm(c.func), "guarded": ok})
                 if not ok:
                     r.violate(PROP, f"_sample_chain:{norm(c.func)}:unguarded", "an adapter method is called without the `adapters is not None` guard", node=c, file=f.file)
+    # every adapter of a transition is updated in every iteration of an adaptive stage: the update call runs
+    # under exactly "this transition has adapters" - no further condition (e.g. on the returned statistics)
+    pm_u = {ch: par for par in ast.walk(f.node) for ch in ast.iter_child_nodes(par)}
+    n_upd = 0
+    for c in ast.walk(f.node):
+        if isinstance(c, ast.Call) and isinstance(c.func, ast.Attribute) and c.func.attr == "update" and isinstance(c.func.value, ast.Name) and "adapter" in c.func.value.id:
+            st_u = c
+            while st_u in pm_u and not isinstance(st_u, ast.stmt):
+                st_u = pm_u[st_u]
+            conds_u = execution_condition(f.node, st_u, stop_at=(ast.FunctionDef,))
+            # tests of the enclosing try/loops that do not select iterations or transitions are none; keep all If tests
+            eqv = bool_equivalent(conds_u, ast.parse("adapters is not None and trans_key in adapters", mode="eval").body)
+            n_upd += 1
+            txt = " and ".join(("" if tr else "not ") + f"({norm(t)})" for t, tr in conds_u)
+            r.inst({"_sample_chain adapter update runs under": txt, "equivalent to 'the transition has adapters'": eqv})
+            if eqv is not True:
+                r.violate(PROP, f"_sample_chain:adapter.update:condition:{txt[:60]}", f"adapter.update runs under `{txt}`, which is not equivalent to `adapters is not None and trans_key in adapters`: in an adaptive stage some iterations / transitions are then not shown to the adapter (it is still initialised and finalised, so an un-updated initial state is written to the transition and used by the main stage)", node=c, file=f.file)
+    if n_upd == 0:
+        raise AnalysisError("_sample_chain: adapter.update call not found")
     sc = program.method("MarkovChainMonteCarloMethod", "sample_chains")
     fin = [c for c in ast.walk(sc.node) if isinstance(c, ast.Call) and norm(c.func) == "_finalize_adapters"]
     for c in fin:
